@@ -1007,12 +1007,12 @@ class ProgramSet(NamedItem):
                 # If there are no compartments, then it's fine not to target any compartments - it should be obvious that only coverage scenarios are possible
                 # If there are compartments, then the same is true, but it's also possible (or even probable) that the user accidentally didn't target any compartments
                 # Therefore, in this case, raise an error - if a user wants to just do coverage scenarios, then they can still target the compartments anyway
-                raise Exception('Program "%s" does not target any compartments' % (prog.name))
+                raise InvalidProgramBook('Program "%s" does not target any compartments' % (prog.name))
             if not prog.target_pops:
                 # If the user is using parameters only, they will still have to define a population. And that population must be targeted in order
                 # to provide any program outcome values. Thus, the program should generally target the population even if there are no compartments,
                 # so we raise an error if no populations are targeted
-                raise Exception('Program "%s" does not target any populations' % (prog.name))
+                raise InvalidProgramBook('Program "%s" does not target any populations' % (prog.name))
 
     #######################################################################################################
     # Methods for getting core response summaries: budget, allocations, coverages, outcomes, etc
